@@ -228,6 +228,20 @@ func (e *Exec) runHeap() *Violation {
 	r := NewRNG(u64of(s.K) ^ 0xABCDEF)
 	nextID := uint64(1)
 	var v *Violation
+	// garbage budget: the collector is off, so the workload collects by hand. Keys cut
+	// out of 32 KiB strings cost 32 KiB of garbage per call, so they get a shorter period
+	// (a 4096-key fresh-key drain once reached 38 GB in one worker with a fixed period).
+	gcEvery, sinceGC := 50000, 0
+	if s.Lay == 1 {
+		gcEvery = 2048
+	}
+	tick := func(n int) {
+		sinceGC += n
+		if sinceGC >= gcEvery {
+			sinceGC = 0
+			runtime.GC()
+		}
+	}
 	msg := guard(func() {
 		base, baseObj := liveHeap()
 		fill := func(ks [][]byte) {
@@ -266,10 +280,7 @@ func (e *Exec) runHeap() *Violation {
 				for _, k := range cur {
 					api.Delete(k)
 				}
-				round := rd
-				if round%64 == 63 {
-					runtime.GC()
-				}
+				tick(2 * len(cur))
 			}
 			after, afterObj := liveHeap()
 			e.st.Probes["heap_drain_rounds"] += rounds
@@ -348,17 +359,13 @@ func (e *Exec) runHeap() *Violation {
 				default:
 					api.Search(k)
 				}
-				if i%50000 == 49999 {
-					runtime.GC()
-				}
+				tick(1)
 			}
 		case "hover":
 			for i := 0; i < N; i++ {
 				api.Insert(keys[r.Intn(S)], nextID)
 				nextID++
-				if i%50000 == 49999 {
-					runtime.GC()
-				}
+				tick(1)
 			}
 		case "hchurn":
 			all := keys
@@ -376,9 +383,7 @@ func (e *Exec) runHeap() *Violation {
 					nextID++
 					present[j] = true
 				}
-				if i%50000 == 49999 {
-					runtime.GC()
-				}
+				tick(1)
 			}
 			// back to the starting content, so before/after compare like with like
 			for j := range all {
